@@ -1,5 +1,7 @@
 # coding: utf-8
 """C16 — DNA pattern search has exact IUPAC, circular and group-extraction semantics."""
+EXTRA_OBLIGATION_FILES = ("Props/C16_src.v",)
+
 import itertools
 
 from harness import common, pattern, recutil
